@@ -82,8 +82,10 @@ theorem checkWithIn_safe (ctx : CheckCtx) (l r : Expr) : Safe (ctx.checkWithIn l
   unfold CheckCtx.checkWithIn
   apply Safe.bind (rt_safe _ _); intro _
   split
-  · exact inItems_safe _ _ _
-  all_goals repeat' safe_step
+  · simp [synErr]
+  · split
+    · exact inItems_safe _ _ _
+    all_goals repeat' safe_step
 
 theorem checkWithBetween_safe (ctx : CheckCtx) (l r : Expr) : Safe (ctx.checkWithBetween l r) := by
   unfold CheckCtx.checkWithBetween
@@ -746,6 +748,21 @@ theorem rewriteFieldNames_safe : ∀ (n i : Nat) (tbl : Tbl) (tys : List Nat), S
         · exact ih _ _ _
       · exact ih _ _ _
 
+theorem refreshTypes_safe (tbl : Tbl) : ∀ (tys : List Nat) (i : Nat), Safe (refreshTypes tbl i tys) := by
+  intro tys
+  induction tys with
+  | nil => intro i; simp [refreshTypes]
+  | cons t ts ih =>
+    intro i
+    unfold refreshTypes
+    apply Safe.bind
+    · split
+      · exact rt_safe _ _
+      · simp
+    · intro _
+      apply Safe.bind (ih _); intro _
+      simp
+
 theorem parseWhere_tot (efuel lfuel spos : Nat) (sel : SelAcc) (wpos : Nat) (ts : Toks)
     (h : ts.length + 1 ≤ lfuel) (he : 8 * ts.length + 4 ≤ efuel) :
     Safe (parseWhere pf efuel lfuel spos sel wpos ts) := by
@@ -761,12 +778,14 @@ theorem parseWhere_tot (efuel lfuel spos : Nat) (sel : SelAcc) (wpos : Nat) (ts 
     dsimp only
     apply Safe.bind (clauseLoop_tot pf efuel lfuel lfuel _ ts1 (by lomega) (by lomega) (by lomega))
     intro c
+    apply Safe.bind (validateFields_safe _ _ _); intro _
+    apply Safe.bind (validateFields_safe _ _ _); intro _
+    apply Safe.bind (refreshTypes_safe _ _ _); intro _
     apply Safe.bind (check_safe _ _); intro _
     apply Safe.bind (rt_safe _ _); intro _
     split
     · simp [synErr]
-    · apply Safe.bind (validateFields_safe _ _ _); intro _
-      simp
+    · simp
 
 /-- `Parse` is total: with the fuel it gives itself it never returns `outOfFuel`, and the only
     `panic` site it can name is the cyclic-alias recursion of `ReturnType` (never a nil token) -/
